@@ -371,12 +371,12 @@ OBLIGATIONS = [
     *[("Op::%s" % v, expr_tc, _op(v), ["unify", "expect_bool_or_num_type"]) for v in ("BitAnd", "BitXor", "BitOr")],
     *[("Op::%s" % v, expr_tc, _op(v), ["unify", "expect_num_type"]) for v in ("GreaterThan", "LessThan")],
     *[("Op::%s" % v, expr_tc, _op(v), ["unify"]) for v in ("Eq", "NotEq")],
-    *[("Op::%s" % v, expr_tc, _op(v), ["expect_num_type", "check_or_constrain_unsigned"]) for v in ("ShiftLeft", "ShiftRight")],
+    *[("Op::%s" % v, expr_tc, _op(v), ["expect_num_type", "@unsigned"]) for v in ("ShiftLeft", "ShiftRight")],
     ("UnaryOp::Neg", expr_tc, {INNER: "UnaryOp", (SELF1, ("inner", "as UnaryOp", "0")): "Neg"}, ["expect_signed_num_type"]),
     ("UnaryOp::Not", expr_tc, {INNER: "UnaryOp", (SELF1, ("inner", "as UnaryOp", "0")): "Not"}, ["expect_bool_or_num_type"]),
     ("If", expr_tc, {INNER: "If"}, ["check_type", "unify"]),
     ("Cast", expr_tc, {INNER: "Cast"}, ["expect_bool_or_num_type"]),
-    ("ArrayAccess", expr_tc, {INNER: "ArrayAccess"}, ["expect_array_type", "check_or_constrain_unsigned"]),
+    ("ArrayAccess", expr_tc, {INNER: "ArrayAccess"}, ["expect_array_type", "@unsigned"]),
     ("TupleAccess", expr_tc, {INNER: "TupleAccess"}, ["expect_tuple_type"]),
     ("StructAccess", expr_tc, {INNER: "StructAccess"}, ["expect_struct_type"]),
     ("Match", expr_tc, {INNER: "Match"}, ["check_exhaustiveness"]),
@@ -390,6 +390,33 @@ OBLIGATIONS = [
     ("VarAssign[index]", stmt_tc, {INNER: "VarAssign"}, []),
     ("ForEachLoop", stmt_tc, {INNER: "ForEachLoop"}, ["expect_array_type"]),
 ]
+
+
+def _discharges(ctx, body, b, w):
+    """Block b calls the checker `w`.  `@unsigned`: the operand is shown to be of a fixed unsigned number type, by
+    check_or_constrain_unsigned or by check_type against a Type::Unsigned(..) built on the spot."""
+    t = body.term(b)
+    if not t or t["k"] != "call":
+        return False
+    seg = mir.last_seg(mir.callee(t) or "")
+    if w != "@unsigned":
+        return seg == w
+    if seg == "check_or_constrain_unsigned":
+        return True
+    if seg == "check_type" and len(t["args"]) == 2 and t["args"][1]["k"] in ("copy", "move"):
+        roots = body.trace(t["args"][1]["place"])
+        def unsigned(r, p):
+            if p:
+                return False
+            if r[0] == "agg":
+                return body.blocks[r[1]]["stmts"][r[2]]["rv"].get("variant") == "Unsigned"
+            if r[0] == "const":
+                v = ctx.promoted_const(str(r[1]))
+                vs = (v,) if isinstance(v, str) else (v or ())
+                return any(x == "ast::Type::Unsigned" for x in vs)
+            return False
+        return bool(roots) and all(unsigned(r, p) for (r, p) in roots)
+    return False
 
 
 def rule_t3(ctx):
@@ -407,19 +434,19 @@ def rule_t3(ctx):
         for w in wants:
             exist_only = w.startswith("?")
             w = w.lstrip("?")
-            blocks = {b for b in region if body.term(b)["k"] == "call" and mir.last_seg(mir.callee(body.term(b)) or "") == w}
+            blocks = {b for b in region if _discharges(ctx, body, b, w)}
             via = with_loop_headers(body, blocks)
             wit = (body.must_pass(via, exits=exits, succ=succ) if not exist_only else None) if blocks else [0]
             if not blocks or wit:
                 res.bad(Finding("T3", f["id"], "%s without %s" % (label, w),
-                                "a %s expression / statement is accepted on a path that does not call %s" % (label, w),
+                                "a %s expression / statement is accepted on a path that does not call %s" % (label, "a checker for a fixed unsigned number type" if w == "@unsigned" else w),
                                 body.term(wit[-1])["sp"] if wit and wit != [0] else f["sp"], witness=["bb%d" % x for x in (wit or [])[-10:]]))
             else:
                 res.ok({"construct": label, "checker": w, "sites": len(blocks)})
     # accessors of an assignment target
     f = stmt_tc(ctx)
     body = ctx.body(f["id"])
-    for acc, wants in (("ArrayAccess", ["expect_array_type", "check_or_constrain_unsigned"]), ("TupleAccess", ["expect_tuple_type"]), ("StructAccess", ["expect_struct_type"])):
+    for acc, wants in (("ArrayAccess", ["expect_array_type", "@unsigned"]), ("TupleAccess", ["expect_tuple_type"]), ("StructAccess", ["expect_struct_type"])):
         succ = body.pruned_succ({INNER: "VarAssign"})
         region = body.reachable([0], succ=succ)
         sw = [b for b in region if (body.switch_info(b) or (None, None, ""))[2] == "ast::Accessor"]
@@ -432,7 +459,7 @@ def rule_t3(ctx):
             lp = [l for l in body.loops() if s in l["body"]]
             hdr = min(lp, key=lambda l: len(l["body"]))["header"] if lp else None
             for w in wants:
-                blocks = {b for b in region if body.term(b)["k"] == "call" and mir.last_seg(mir.callee(body.term(b)) or "") == w}
+                blocks = {b for b in region if _discharges(ctx, body, b, w)}
                 wit = body.path(tgt[0], [hdr] if hdr is not None else ok_exits(body), blocked=blocks, succ=succ)
                 if wit:
                     res.bad(Finding("T3", f["id"], "assignment through %s without %s" % (acc, w), "an assignment target accessor is accepted without %s" % w, body.term(wit[-1])["sp"]))
